@@ -370,6 +370,7 @@ func ModelIsNotExist(err error) bool { return errors.Is(err, fs.ErrNotExist) }
 func ModelIsExist(err error) bool    { return errors.Is(err, fs.ErrExist) }
 func ModelOSTempDir() string         { return "/tmp" }
 func ModelGetenv(string) string      { return "" }
+func ModelSetenv(k, v string) error  { return nil }
 
 // ---- *os.File ----
 
